@@ -33,14 +33,22 @@ func verifC05(generic bool) {
 	verifAssume(t1 >= verifT0 && t1 <= verifT1)
 	now := t1
 	verifClockFn = func() int64 { return now }
-	rw := &verifFaultyRW{errFault: errors.New("backend fault")} // nothing cached, no faults
+	rw := &verifFaultyRW{errFault: errors.New("backend fault")} // no faults
+	// the key is either absent or holds a stale (still servable) value whose short-lived refreshed
+	// copy has expired again by the time of the second Get (UpdateTTL shorter than FailedUpdateTTL)
+	staleEntry := verifBool("staleEntry")
+	syncUpdate := verifBool("syncUpdate")
+	if staleEntry {
+		rw.state, rw.val, rw.expiredAt = 2, verifCachedVal, t1-10
+	}
 	errBuild := errors.New("build failure")
 	builds := 0
 	ctx := context.Background()
 	var err1, err2 error
 	get := func() error { return nil }
 	if !generic {
-		f := NewFailover(FailoverConfig{Backend: verifFaultyBackend{rw}, FailedUpdateTTL: time.Duration(fut)}.Use)
+		f := NewFailover(FailoverConfig{Backend: verifFaultyBackend{rw}, FailedUpdateTTL: time.Duration(fut), SyncUpdate: syncUpdate}.Use)
+		verifBackgroundDone = func() bool { f.lock.Lock(); defer f.lock.Unlock(); return len(f.keyLocks) == 0 }
 		get = func() error {
 			_, err := f.Get(ctx, []byte("k"), func(ctx context.Context) (interface{}, error) {
 				builds++
@@ -52,7 +60,8 @@ func verifC05(generic bool) {
 			return err
 		}
 	} else {
-		f := NewFailoverOf[int](FailoverConfigOf[int]{Backend: verifFaultyBackendOf{rw}, FailedUpdateTTL: time.Duration(fut)}.Use)
+		f := NewFailoverOf[int](FailoverConfigOf[int]{Backend: verifFaultyBackendOf{rw}, FailedUpdateTTL: time.Duration(fut), SyncUpdate: syncUpdate}.Use)
+		verifBackgroundDone = func() bool { f.lock.Lock(); defer f.lock.Unlock(); return len(f.keyLocks) == 0 }
 		get = func() error {
 			_, err := f.Get(ctx, []byte("k"), func(ctx context.Context) (int, error) {
 				builds++
@@ -65,11 +74,19 @@ func verifC05(generic bool) {
 		}
 	}
 	err1 = get()
-	verifAssert("first Get returns the builder error", err1 != nil && errors.Is(err1, errBuild) && builds == 1)
+	verifRunBackground()
+	if staleEntry {
+		verifReach("stale entry")
+		verifAssert("first Get serves the stale value and builds once", err1 == nil && builds == 1)
+		rw.state, rw.expiredAt = 2, t1-10 // the refreshed copy has expired again
+	} else {
+		verifAssert("first Get returns the builder error", err1 != nil && errors.Is(err1, errBuild) && builds == 1)
+	}
 	t2 := verifInt64("t2")
 	verifAssume(t2 >= t1 && t2 <= verifT1)
 	now = t2
 	err2 = get()
+	verifRunBackground()
 	if mode == 2 {
 		verifReach("failure cache disabled")
 		verifAssert("with FailedUpdateTTL=-1 the next Get invokes the builder again", builds == 2 && err2 == nil)
